@@ -111,7 +111,8 @@ def c02_build(n: int, w: int, share: bool, twin: bool, lw: bool, bare: bool, p0:
   elif bare:
     # argument-less Partials: two equal-but-distinct instances, the first referenced twice, and an empty list twice
     bp, bp2, el = fdl.Partial(fam.g5), fdl.Partial(fam.g5), []
-    root.z = [bp, bp2, bp, el, [], el]
+    # ... and two distinct constant tuples that are == but differ in element types (created at run time)
+    root.z = [bp, bp2, bp, el, [], el, tuple([1, 2.0]), tuple([True, 2])]
   sigs.reset_log()
   built = fdl.build(root)
   log1 = list(sigs.LOG)
@@ -127,7 +128,7 @@ def c02_build(n: int, w: int, share: bool, twin: bool, lw: bool, bare: bool, p0:
     exp = sigs.Rec(exp.name, exp.pos, (), (sub[-1],), {})
   elif bare:
     mp, mp2, ml = functools.partial(fam.g5), functools.partial(fam.g5), []
-    exp = sigs.Rec(exp.name, exp.pos, (), ([mp, mp2, mp, ml, [], ml],), {})
+    exp = sigs.Rec(exp.name, exp.pos, (), ([mp, mp2, mp, ml, [], ml, (1, 2.0), (True, 2)],), {})
   sigs.reset_log()
   note('c02', n, w, share, twin, lw, bare, tuple(partial), tuple(targets), tuple(nm for nm, _ in log1))
   # 1. invocation log: every reachable Config node exactly once (twins add their own invocations)
@@ -162,6 +163,15 @@ def c02_build(n: int, w: int, share: bool, twin: bool, lw: bool, bare: bool, p0:
     if k in ids2:
       return False
   if canon(built2) != canon(exp):
+    return False
+  # 3b. a plain dict as the root of the build: what its entries share is still built once (the same invocations as
+  # for the root alone, the root's result is one object)
+  sigs.reset_log()
+  child = next((nodes[t] for t in targets[n - 1] if 0 <= t < n - 1), None)
+  bd = fdl.build({'p': root, 'q': [root] + ([child] if child is not None else []), 'r': {'again': root}})
+  if bd['p'] is not bd['q'][0] or bd['r']['again'] is not bd['p'] or canon(bd['p']) != canon(exp):
+    return False
+  if sorted(nm for nm, _ in sigs.LOG) != sorted(names):
     return False
   # 4. nor does a built graph share a mutable object with the configuration it was built from
   idc = mutable_ids(root, include_internal=False)
